@@ -143,7 +143,10 @@ func (va ClawbackVestingAccount) GetVestingPeriods() sdkvesting.Periods {
 
 // Validate checks for errors on the account fields
 func (va ClawbackVestingAccount) Validate() error {
-	if va.GetStartTime() >= va.GetEndTime() {
+	// NOTE: start == end is a legitimate degenerate schedule: it is what
+	// ComputeClawback leaves behind when nothing has vested yet (no periods,
+	// no coins), and everything unlocks right after the start time.
+	if va.GetStartTime() > va.GetEndTime() {
 		return errors.New("vesting start-time must be before end-time")
 	}
 
